@@ -221,6 +221,7 @@ class LiftProp(Prop):
     n_files = {"quick": 250, "thorough": 15000}
     n_ivs = 14
     big_prob = 0.08
+    split_prob = 0.08
     exhaustive_small = False
 
     def gen_chains(self, rng):
@@ -234,6 +235,9 @@ class LiftProp(Prop):
     def cases(self, rng, tier):
         for _ in range(self.n_files[tier]):
             chains = self.gen_chains(rng)
+            if rng.random() < self.split_prob:
+                # one chain cut in two (a chain continued by the next one): still well-formed, same alignment
+                chains = ch.split_chain(rng, chains)
             style = ch.gen_style(rng)
             ivs = [list(ch.gen_interval(rng, chains, nonempty=self.nonempty)) for _ in range(self.n_ivs)]
             yield {"kind": "lift", "chains": [ch.chain_to_dict(c) for c in chains],
@@ -667,6 +671,7 @@ class C11(LiftProp):
     id = "C11"
     title = "Chains act independently; results are deterministic and ordered"
     zero_prob = 0.04
+    split_prob = 0.3
     n_files = {"quick": 150, "thorough": 8000}
     n_ivs = 10
     rule = ("well-formed files with >= 2 chains x intervals: answer over the file = multiset union of the answers over each chain "
@@ -1011,12 +1016,18 @@ def case_key2(case):
 # line-class streams: C05, C07
 # ==========================================================================================
 
-HEADERS = ["chain 0 a 9 + 0 9 b 9 + 0 9 1", "chain 5 chr1 20 - 2 11 q1 30 + 4 13 2", "chain 1 a 9 + 1 5 b 9 - 0 4 7"]
+HEADERS = ["chain 0 a 9 + 0 9 b 9 + 0 9 1", "chain 5 chr1 20 - 2 11 q1 30 + 4 13 2", "chain 1 a 9 + 1 5 b 9 - 0 4 7",
+           # valid headers whose names contain white space other than the delimiter, or are empty: fields are
+           # separated by single spaces and by nothing else
+           "chain 0 a\tb 9 + 0 9 b 9 + 0 9 1", "chain 0 a\u00a0x 9 + 0 9 b\u3000 9 + 0 9 1", "chain 0  9 + 0 9 b 9 + 0 9 1"]
 NONTERM = ["3\t0\t1", "2\t1\t0", "4\t0\t0", "0\t2\t2"]
 TERM = ["1", "4", "9", "0"]
 JUNK = ["chain oops", "chainX 0 a 9 + 0 9 b 9 + 0 9 1", "3\t1", "3\t1\t2\t7", "3\t0\t1\t", "4\t", "x", "chain 0 a 9 + 5 2 b 9 + 0 9 1", " 5", "5\t\t", "chain 0 a 9 ? 0 9 b 9 + 0 9 1", "18446744073709551616",
         # not UTF-8 (surrogate escapes stand for the raw bytes ff / c3 28 / 1f 8b): the reader refuses the line but must consume it
         # lines other tools treat specially (comments, a byte order mark): for this library they are ordinary unparsable lines
+        # header-like lines with a surplus (empty) field: two consecutive spaces, a trailing space, a leading space after the prefix
+        "chain 0 a 9 + 0 9 b 9 + 0 9 1 ", "chain 0 a  9 + 0 9 b 9 + 0 9 1", "chain  0 a 9 + 0 9 b 9 + 0 9 1", "chain 0 a 9 + 0 9 b 9 +  0 9 1",
+        "chain\t0 a 9 + 0 9 b 9 + 0 9 1", "3 1 2", "3\t1 2",
         "#", "# comment", "##matrix=16 91 -114 -31", "\ufeffchain 0 a 9 + 0 9 b 9 + 0 9 1", "\ufeff",
         "\udcff", "3\t1\t\udcc3(", "\x1f\udc8b\x08\x01", "chain 0 a\udcfe 9 + 0 9 b 9 + 0 9 1"]
 CLASSES = "BHNTU"
@@ -1559,6 +1570,7 @@ class C12(Prop):
         vs = self.variants(case)
         base = None
         base_lines = None
+        base_fresh = None
         ivs = ",".join(iv_tok(*iv) for iv in case["ivs"])
         for label, events in vs:
             src = ch.src_events(events)
@@ -1584,6 +1596,19 @@ class C12(Prop):
                     if not (o[0].startswith("err sections E blank") and lbase[0].startswith("err sections E blank")):
                         ev.judge = "machine differs under '%s': %s vs baseline %s" % (label, o, lbase)
                         break
+            # one FRESH sections() iterator per section (what a caller does who handles a section and comes back):
+            # the same items under every encoding, chunking and — for streams without errors — blank padding
+            if label != "blank padding" or case.get("clean"):
+                nfresh = min(8, sum(1 for t in case["lines"] if t.startswith("chain")) + 2)
+                i5, m5 = both(ctx, ev, "ops %s %s" % (src, ",".join(["secs1"] * nfresh)))
+                f5, g5 = blank_norm(i5.split(" ; ")), blank_norm(m5.split(" ; "))
+                if f5 != g5:
+                    ev.corr = "fresh sections() iterators (%s): impl %r vs model %r" % (label, i5[:200], m5[:200])
+                if base_fresh is None:
+                    base_fresh = f5
+                elif f5 != base_fresh:
+                    ev.judge = "sections read through fresh iterators differ under '%s': %s vs baseline %s" % (label, f5[:6], base_fresh[:6])
+                    break
             if label != "blank padding":
                 # parsed lines (`lines()`): the same sequence under every encoding and chunking
                 i4, m4 = both(ctx, ev, "lines %s" % src)
@@ -2045,7 +2070,13 @@ class C13(Prop):
             elif r < 0.9:
                 yield {"kind": "line", "text": gen_data_text(rng, valid=rng.random() < 0.8)}
             else:
-                chains = ch.gen_file(rng, max_chains=3, zero_prob=0.2) if rng.random() < 0.8 else ch.gen_big_file(rng)
+                chains = ch.gen_file(rng, max_chains=3, zero_prob=0.2, odd_names=True) if rng.random() < 0.8 else ch.gen_big_file(rng)
+                if rng.random() < 0.25:
+                    # names with multi-byte characters (the bytes of a re-serialisation sit at other offsets)
+                    ren = {}
+                    for c in chains:
+                        for side in (c.ref, c.qry):
+                            side.name = ren.setdefault(side.name, side.name + rng.choice(["\u00e9", "\u4e2d", "\U0001F9EC", "\u00e9\u4e2d"]))
                 ivs = [list(ch.gen_interval(rng, chains)) for _ in range(8)]
                 yield {"kind": "file", "chains": [ch.chain_to_dict(c) for c in chains], "style": ch.style_to_dict(ch.gen_style(rng)), "ivs": ivs}
 
@@ -2114,6 +2145,26 @@ class C13(Prop):
                 r3 = ctx.impl.ask("reser " + src2).partition(" eq=")[0]
                 if r3 != r:
                     ev.judge = "canonical text does not print back byte-identically (second re-serialisation differs)"
+            if not ev.judge:
+                # the same reader configuration on both files: a buffered reader of capacity k (the stream arrives in
+                # k-byte pieces). Where the original is accepted, the re-serialisation — whose bytes sit at other offsets
+                # (canonical numbers, one blank line after every section) — must be accepted too, with equal sections.
+                data2 = bytes.fromhex(r[4:]) if len(r) > 4 else b""
+                kr = random.Random(case_key(case))
+                # buffer sizes: a few fixed ones, and ones that put a buffer boundary INSIDE a multi-byte character or
+                # between CR and LF of the re-serialisation (k = offset of the boundary: the first refill happens there)
+                inside = [o for o in range(1, len(data2)) if (data2[o] & 0xC0) == 0x80 or data2[o - 1:o + 1] == b"\r\n"]
+                for k in kr.sample([1, 2, 3, 5, 7, 16, 17, 31, 64], 3) + kr.sample(inside, min(4, len(inside))):
+                    pieces = lambda d: ch.src_events([("c", d[o:o + k]) for o in range(0, len(d), k)]) if d else "-"
+                    a = ctx.impl.ask("sections %s 1000" % pieces(data))
+                    if a != secs:
+                        continue        # chunking changes the original's parse: C12's business, not a round-trip matter
+                    b2 = ctx.impl.ask("sections %s 1000" % pieces(data2))
+                    ev.requests.append("sections %s 1000" % pieces(data2))
+                    if b2 != secs:
+                        ev.judge = ("read through a buffer of %d bytes the original parses to %s but its re-serialisation to %s"
+                                    % (k, secs[:160], b2[:160]))
+                        break
             ev.tags.append("file:ok")
             if len(case["chains"]) >= 2:
                 ev.nontrivial = case_key(case)
